@@ -25,7 +25,7 @@
 From Coq Require Import Strings.String Strings.Byte.
 From Coq Require Import List Bool NArith ZArith Arith Lia ZifyBool ZifyNat ZifyN.
 From Goit Require Import Bytes Sha1 Obj Tree Index Regex GoRegex Commit Reflog Config Ignore World Repo.
-From Goit Require Import BytesFacts ObjFacts ReflogFacts MonadFacts BranchFacts ExactFacts Inv.
+From Goit Require Import BytesFacts ObjFacts RegexFacts ReflogFacts MonadFacts BranchFacts ExactFacts Inv.
 Import ListNotations.
 
 Arguments sha1 : simpl never.
@@ -776,4 +776,697 @@ Proof.
     + eexists. split; [exact Hlen|]. rewrite !hlog_bytes_effect. autorewrite with wfields.
       cbn [hlog_line]. rewrite !app_nil_r. split; [apply am_get_set_same|]. split; [reflexivity|].
       right. auto.
+Qed.
+
+(* the part of the world the journal lines talk about *)
+Definition jframe (w0 w : world) : Prop :=
+  hlog_bytes w = hlog_bytes w0 /\ w_refs w = w_refs w0 /\ w_head w = w_head w0.
+
+Lemma jframe_refl : forall w, jframe w w.
+Proof. intro w. repeat split. Qed.
+
+Definition commit_post (e : env) (c : ctx) (w : world) (msg : bytes) (w' : world) : Prop :=
+  exists cid, length cid = 20 /\ am_get (w_refs w') (w_head w') = Some cid /\ w_head w' = w_head w /\
+    hlog_bytes w' = hlog_bytes w ++
+      log_rec e c (am_get (w_refs w) (w_head w)) (Some cid) RCommit (first_line msg).
+
+Definition jg_frame (e : effect) : Prop :=
+  match e with
+  | EInit | EAppendHlog _ | ESetRef _ _ | EDelRef _ | ERenameRef _ _ | ESetHead _ => False
+  | _ => True
+  end.
+
+Lemma jframe_static : forall w0 w e, jg_frame e -> jframe w0 w -> jframe w0 (apply_effect e w).
+Proof.
+  intros w0 w e He (Hb & Hr & Hh). unfold jframe. rewrite hlog_bytes_effect.
+  destruct e; try contradiction He; autorewrite with wfields; cbn [hlog_line]; rewrite app_nil_r; auto.
+Qed.
+
+Lemma JGq_ok3 : forall (H : Prop) q w e (Q : Prop), (H -> JG e) -> (q = true -> is_hlog e = false) -> Q ->
+  JGq H q w e /\ Tr (apply_effect e w) /\ Q.
+Proof. intros H q w e Q H1 H2 H3. split; [split; assumption | split; [exact Logic.I | exact H3]]. Qed.
+
+(* turn the obligations left by [hsteps] into [H -> JG e] goals and postconditions *)
+Ltac jg_split :=
+  lazymatch goal with
+  | |- JGq _ _ _ _ /\ Tr _ /\ _ =>
+      apply JGq_ok3; [ | let Hq := fresh "Hq" in intro Hq; first [reflexivity | discriminate Hq] | ]
+  | |- JGq _ _ _ _ /\ Tr _ =>
+      apply JGq_ok; [ | let Hq := fresh "Hq" in intro Hq; first [reflexivity | discriminate Hq] ]
+  | |- _ => idtac
+  end.
+
+Lemma do_commit_spec : forall (H : Prop) e c msg w,
+  ctx_of w = Some c ->
+  (H -> NamesClean w /\ ident_clean c) ->
+  hoare Tr (JGq H false) (eq w) (do_commit e c msg) (fun _ w' => commit_post e c w msg w').
+Proof.
+  intros H e c msg w Hctx Hhyp.
+  pose proof (loaded_headc w c Hctx) as Hhead.
+  unfold do_commit, put_obj. hsteps.
+  apply at_bind_iterM with (J := jframe w).
+  - intros _. apply jframe_refl.
+  - intros d w1 _ _ Hfr. hsteps.
+    + jg_open Hh. exact Logic.I.
+    + apply jframe_static; [exact Logic.I | exact Hfr].
+  - intros w1 _ Hfr. hsteps.
+    all: try absurd_guard.
+    all: destruct Hfr as (Hfb & Hfrf & Hfh).
+    all: jg_split.
+    all: lazymatch goal with
+         | |- _ -> JG (EPutObj _ _) => intros _; exact Logic.I
+         | |- _ -> JG (EAppendBlog _ _) => intros _; exact Logic.I
+         | |- _ -> JG (ESetRef _ _) => intro Hh; exact (proj2 (proj1 (Hhyp Hh)))
+         | |- _ -> JG (ESetHead _) => intro Hh; exact (proj2 (proj1 (Hhyp Hh)))
+         | |- _ -> JG (EAppendHlog _) =>
+             intro Hh; destruct (Hhyp Hh) as [Hn Hi]; eexists; apply log_rec_good;
+             [exact Hi | apply some_len; unfold obj_id; apply sha1_length | apply first_line_no_nl]
+         | |- _ => idtac
+         end.
+    + eexists. split; [apply sha1_length|]. rewrite !hlog_bytes_effect. autorewrite with wfields.
+      cbn [hlog_line]. rewrite !app_nil_r, Hfb, Hfrf, (proj1 Hhead).
+      split; [apply am_get_set_same|]. split; reflexivity.
+    + assert (Hnone : am_get (w_refs w) (w_head w) = None) by (apply am_mem_false; assumption).
+      eexists. split; [apply sha1_length|]. rewrite !hlog_bytes_effect. autorewrite with wfields.
+      cbn [hlog_line]. rewrite !app_nil_r, Hfb, Hfrf, Hnone.
+      split; [apply am_get_set_same|]. split; reflexivity.
+Qed.
+
+Lemma cmd_commit_spec : forall (H : Prop) e c msg w,
+  ctx_of w = Some c ->
+  (H -> NamesClean w /\ ident_clean c) ->
+  hoare Tr (JGq H false) (eq w) (cmd_commit e c msg) (fun _ w' => commit_post e c w msg w').
+Proof.
+  intros H e c msg w Hctx Hhyp.
+  assert (Hcall : forall (f : unit -> M (list bytes)),
+            (forall u w', commit_post e c w msg w' -> hoare Tr (JGq H false) (eq w') (f u) (fun _ w'' => commit_post e c w msg w'')) ->
+            hoare Tr (JGq H false) (eq w) (bind (do_commit e c msg) f) (fun _ w' => commit_post e c w msg w')).
+  { intros f Hf. apply at_bind_call with (P := eq w) (R := fun _ w' => commit_post e c w msg w').
+    - apply do_commit_spec; assumption.
+    - intros _. reflexivity.
+    - intros u w' _ Hp. apply Hf. exact Hp. }
+  unfold cmd_commit, head_tree_nodes. hsteps.
+  all: apply Hcall; intros u w' Hp; hsteps; exact Hp.
+Qed.
+
+Lemma reset_arg_no_nl : forall a n, reset_arg a = Some n -> ~ In c_nl a.
+Proof.
+  intros a n Ha. destruct (reset_arg_only a n Ha) as (ds & -> & _ & Hd & _).
+  apply jf_lit_app_clean; [reflexivity|]. apply not_in_app.
+  - intro Hin. rewrite forallb_forall in Hd. specialize (Hd _ Hin). discriminate Hd.
+  - cbn. intuition discriminate.
+Qed.
+
+(* a procedure that only emits frame effects keeps the frame *)
+Lemma wt_put_frame : forall (H : Prop) q w0 p data,
+  hoare Tr (JGq H q) (jframe w0) (wt_put p data) (fun _ => jframe w0).
+Proof.
+  intros H q w0 p data. apply hoare_world. intros w _ Hfr.
+  unfold wt_put. hsteps; jg_split.
+  all: try (intros _; exact Logic.I).
+  all: repeat (apply jframe_static; [exact Logic.I|]); exact Hfr.
+Qed.
+
+Definition reset_post (e : env) (c : ctx) (w : world) (args : list bytes) (w' : world) : Prop :=
+  exists prev tid a, args = [a] /\ reset_target w a = Some tid /\
+    am_get (w_refs w) (w_head w) = Some prev /\ length tid = 20 /\
+    am_get (w_refs w') (w_head w') = Some tid /\ w_head w' = w_head w /\
+    hlog_bytes w' = hlog_bytes w ++
+      log_rec e c (Some prev) (Some tid) RReset (str "moving to "%string ++ a).
+
+Lemma cmd_reset_spec : forall (H : Prop) e c soft mixed hard args w,
+  ctx_of w = Some c ->
+  (H -> NamesClean w /\ ident_clean c) ->
+  hoare Tr (JGq H false) (eq w) (cmd_reset e c soft mixed hard args) (fun _ w' => reset_post e c w args w').
+Proof.
+  intros H e c soft mixed hard args w Hctx Hhyp.
+  pose proof (loaded_headc w c Hctx) as Hhead.
+  destruct args as [|a [|a' r]]; unfold cmd_reset; hsteps.
+  all: destruct Hhead as [Hhd Hhc].
+  all: match goal with Hc : get_commit _ ?t = Some _, Hr : r_id _ = Some ?t |- _ =>
+         pose proof (get_commit_id_length _ _ _ Hc) as Hlen;
+         assert (Htgt : reset_target w a = Some t) by (eapply reset_target_intro; eassumption);
+         match type of Hhd with _ = Some ?prev =>
+           assert (HQ : forall w',
+             jframe (apply_effect (EAppendBlog (w_head w) (log_rec e c (Some prev) (Some t) RReset (str "moving to "%string ++ a)))
+                      (apply_effect (EAppendHlog (log_rec e c (Some prev) (Some t) RReset (str "moving to "%string ++ a)))
+                         (apply_effect (ESetRef (w_head w) t) w))) w' ->
+             reset_post e c w [a] w')
+         end
+       end.
+  all: try (intros w' (Hfb & Hfr & Hfh); eexists; eexists; exists a;
+            split; [reflexivity|]; split; [exact Htgt|]; split; [exact Hhd|]; split; [exact Hlen|];
+            rewrite Hfb, Hfr, Hfh, !hlog_bytes_effect; autorewrite with wfields; cbn [hlog_line];
+            rewrite !app_nil_r; split; [apply am_get_set_same|]; split; reflexivity).
+  all: jg_split.
+  all: lazymatch goal with
+       | |- _ -> JG (ESetRef _ _) => intro Hh; exact (proj2 (proj1 (Hhyp Hh)))
+       | |- _ -> JG (EAppendBlog _ _) => intros _; exact Logic.I
+       | |- _ -> JG (ESetIndex _) => intros _; exact Logic.I
+       | |- _ -> JG (EAppendHlog _) =>
+           intro Hh; destruct (Hhyp Hh) as [Hn Hi]; eexists; apply log_rec_good;
+           [exact Hi | apply some_len; exact Hlen
+            | apply jf_lit_app_clean; [reflexivity | eapply reset_arg_no_nl; eassumption]]
+       | |- reset_post _ _ _ _ _ =>
+           apply HQ; first [apply jframe_refl | apply jframe_static; [exact Logic.I | apply jframe_refl]]
+       | |- hoare _ _ (eq _) (bind (iterM _ _) _) _ =>
+           match type of HQ with forall w', jframe ?w0 w' -> _ =>
+             apply at_bind_iterM with (J := jframe w0);
+             [ intros _; apply jframe_static; [exact Logic.I | apply jframe_refl]
+             | intros en w1 _ _ Hfr1; hsteps;
+               apply at_call with (P := jframe w0) (R := fun _ => jframe w0);
+               [apply wt_put_frame | intros _; exact Hfr1 | intros u w2 _ Hw2; exact Hw2]
+             | intros w1 _ Hfr1; hsteps; apply HQ; exact Hfr1 ]
+           end
+       end.
+Qed.
+
+Lemma rename_msg_clean : forall prev new, ~ In c_nl prev -> ~ In c_nl new ->
+  ~ In c_nl (str "renamed refs/heads/"%string ++ prev ++ str " to refs/heads/"%string ++ new).
+Proof.
+  intros prev new Hp Hn. apply jf_lit_app_clean; [reflexivity|].
+  apply not_in_app; [exact Hp|]. apply jf_lit_app_clean; [reflexivity | exact Hn].
+Qed.
+
+Definition rename_lines (e : env) (c : ctx) (hid prev new : bytes) : bytes :=
+  log_rec e c (Some hid) None RBranch (str "renamed refs/heads/"%string ++ prev ++ str " to refs/heads/"%string ++ new)
+  ++ log_rec e c None (Some hid) RBranch (str "renamed refs/heads/"%string ++ prev ++ str " to refs/heads/"%string ++ new).
+
+Definition branch_post (e : env) (c : ctx) (w : world) (rename : bytes) (w' : world) : Prop :=
+  is_nil rename = false ->
+  exists hid, am_get (w_refs w) (w_head w) = Some hid /\ length hid = 20 /\
+    w_head w' = rename /\ am_get (w_refs w') (w_head w') = Some hid /\
+    hlog_bytes w' = hlog_bytes w ++ rename_lines e c hid (w_head w) rename.
+
+Lemma cmd_branch_spec : forall (H : Prop) e c args lst rename delete w,
+  ctx_of w = Some c ->
+  (H -> NamesClean w /\ ident_clean c /\ Forall (fun a => ~ In c_nl a) args /\ ~ In c_nl rename) ->
+  hoare Tr (JGq H (is_nil rename)) (eq w) (cmd_branch e c args lst rename delete)
+        (fun _ w' => branch_post e c w rename w').
+Proof.
+  intros H e c args lst rename delete w Hctx Hhyp.
+  pose proof (loaded_headc w c Hctx) as Hhead.
+  destruct (is_nil rename) eqn:Enil.
+  - destruct rename as [|r0 rn]; [clear Enil | discriminate Enil].
+    destruct args as [|a [|a' r]]; destruct lst; destruct delete as [|d0 dl];
+      unfold cmd_branch; cbn [length Nat.eqb is_nil negb andb orb]; hsteps; try absurd_guard.
+    all: jg_split.
+    all: lazymatch goal with
+         | |- branch_post _ _ _ [] _ => intro Hn; discriminate Hn
+         | |- _ -> JG (ESetRef _ _) =>
+             intro Hh; destruct (Hhyp Hh) as (_ & _ & Hargs & _); exact (Forall_inv Hargs)
+         | |- _ -> JG _ => intros _; exact Logic.I
+         end.
+  - destruct args as [|a [|a' r]]; destruct lst; destruct delete as [|d0 dl];
+      unfold cmd_branch; rewrite Enil; cbn [length Nat.eqb is_nil negb andb orb]; hsteps; try absurd_guard.
+    all: jg_split.
+    all: destruct Hhead as [Hhd Hhc]; pose proof (get_commit_id_length _ _ _ Hhc) as Hlen.
+    all: lazymatch goal with
+         | |- _ -> JG (ERenameRef _ _) => intro Hh; exact (proj2 (proj2 (proj2 (Hhyp Hh))))
+         | |- _ -> JG (ESetHead _) => intro Hh; exact (proj2 (proj2 (proj2 (Hhyp Hh))))
+         | |- _ -> JG (EAppendHlog (log_rec _ _ _ None _ _)) =>
+             intro Hh; destruct (Hhyp Hh) as (Hn & Hi & _ & Hrn); eexists; apply log_rec_good;
+             [exact Hi | intros h0 Hh0; discriminate Hh0 | apply rename_msg_clean; [exact (proj2 Hn) | exact Hrn]]
+         | |- _ -> JG (EAppendHlog (log_rec _ _ _ (Some _) _ _)) =>
+             intro Hh; destruct (Hhyp Hh) as (Hn & Hi & _ & Hrn); eexists; apply log_rec_good;
+             [exact Hi | apply some_len; exact Hlen | apply rename_msg_clean; [exact (proj2 Hn) | exact Hrn]]
+         | |- _ -> JG _ => intros _; exact Logic.I
+         | |- branch_post _ _ _ _ _ =>
+             intros _; eexists; split; [exact Hhd|]; split; [exact Hlen|];
+             rewrite !hlog_bytes_effect; autorewrite with wfields; rewrite Hhd; cbn [hlog_line];
+             rewrite !app_nil_r, <- app_assoc;
+             split; [reflexivity|]; split; [apply am_get_set_same | reflexivity]
+         end.
+Qed.
+
+Lemma cmd_update_ref_spec : forall (H : Prop) args w,
+  (H -> NamesClean w) ->
+  hoare Tr (JGq H true) (eq w) (cmd_update_ref args) (fun _ _ => True).
+Proof.
+  intros H args w Hhyp.
+  destruct args as [|r [|h [|x rest]]]; unfold cmd_update_ref, head_update; hsteps; jg_split;
+    try exact Logic.I.
+  all: intro Hh; cbn [JG]; apply (proj1 (Hhyp Hh));
+       match goal with Hm : am_mem (w_refs _) _ = true |- _ => exact Hm end.
+Qed.
+
+(* ------------------------------------------------------------------ *)
+(** ** All commands *)
+
+Definition cmd_names_clean (c : cmd) : Prop :=
+  match c with
+  | CBranch args _ rename _ => Forall (fun a => ~ In c_nl a) args /\ ~ In c_nl rename
+  | CSwitch _ create => ~ In c_nl create
+  | _ => True
+  end.
+
+Definition action_names_clean (a : action) : Prop :=
+  match a with ACmd _ c => cmd_names_clean c | AEdit _ => True end.
+
+(* the commands that never write to logs/HEAD *)
+Definition quiet_cmd (c : cmd) : bool :=
+  match c with
+  | CCommit _ | CSwitch _ _ | CReset _ _ _ _ => false
+  | CBranch _ _ rename _ => is_nil rename
+  | _ => true
+  end.
+
+(* what a successful command has appended *)
+Definition cmd_post (e : env) (c : cmd) (w w' : world) : Prop :=
+  match c with
+  | CCommit msg => exists x, ctx_of w = Some x /\ commit_post e x w msg w'
+  | CSwitch args create => exists x, ctx_of w = Some x /\ switch_post e x w args create w'
+  | CReset _ _ _ args => exists x, ctx_of w = Some x /\ reset_post e x w args w'
+  | CBranch _ _ rename _ => exists x, ctx_of w = Some x /\ branch_post e x w rename w'
+  | _ => True
+  end.
+
+Lemma hoare_post_ex : forall (I : world -> Prop) G A (P : world -> Prop) (m : M A) (Q : A -> world -> Prop) (Q' : A -> world -> Prop),
+  (forall a w, Q a w -> Q' a w) -> hoare I G P m Q -> hoare I G P m Q'.
+Proof.
+  intros I G A P m Q Q' Himp Hm.
+  apply (hoare_conseq I G A P P m Q Q' Hm); auto.
+Qed.
+
+Theorem run_cmd_spec : forall (H : Prop) e c w,
+  (H -> JInv w /\ cmd_names_clean c) ->
+  hoare Tr (JGq H (quiet_cmd c)) (eq w) (run_cmd e c) (fun _ w' => cmd_post e c w w').
+Proof.
+  intros H e c w Hhyp.
+  assert (Hstat : forall (m : M (list bytes)) q, emits Tr (JGq H q) m ->
+            hoare Tr (JGq H q) (eq w) m (fun _ _ => True)).
+  { intros m q Hm. apply hoare_at with (P := fun _ : world => True); [apply emits_hoare; exact Hm | exact Logic.I]. }
+  unfold run_cmd. apply at_bind_getw.
+  destruct c; cbn [quiet_cmd cmd_post].
+  1: { apply Hstat. apply cmd_init_je. }
+  all: apply at_bind_guard; intros Hinit;
+       apply at_bind with (R := fun x w' => w' = w /\ ctx_of w = Some x); [apply load_ctx_at|];
+       intros x w' _ [-> Hx].
+  all: assert (Hid : H -> NamesClean w /\ ident_clean x)
+         by (intro Hh; destruct (Hhyp Hh) as [(_ & Hn & Hc) _]; split; [exact Hn | apply (ctx_ident_clean w x Hc Hx)]).
+  - apply Hstat, cmd_config_je.
+  - apply Hstat, cmd_add_je.
+  - apply Hstat, cmd_rm_je.
+  - apply hoare_post_ex with (Q := fun _ w' => commit_post e x w msg w');
+      [intros _ w' Hp; exists x; auto | apply cmd_commit_spec; assumption].
+  - apply Hstat, cmd_status_je.
+  - apply hoare_post_ex with (Q := fun _ w' => branch_post e x w rename w');
+      [intros _ w' Hp; exists x; auto | apply cmd_branch_spec; [exact Hx|]].
+    intro Hh. destruct (Hid Hh) as [Hn Hi]. destruct (Hhyp Hh) as [_ [Ha Hr]]. auto.
+  - apply hoare_post_ex with (Q := fun _ w' => switch_post e x w args create w');
+      [intros _ w' Hp; exists x; auto | apply cmd_switch_spec; [exact Hx|]].
+    intro Hh. destruct (Hid Hh) as [Hn Hi]. destruct (Hhyp Hh) as [_ Hc]. auto.
+  - apply hoare_post_ex with (Q := fun _ w' => reset_post e x w args w');
+      [intros _ w' Hp; exists x; auto | apply cmd_reset_spec; assumption].
+  - apply Hstat, cmd_restore_je.
+  - apply cmd_update_ref_spec. intro Hh. exact (proj1 (Hid Hh)).
+  - apply Hstat, cmd_log_je.
+  - apply Hstat, cmd_reflog_je.
+  - apply Hstat, cmd_cat_file_je.
+  - apply Hstat, cmd_hash_object_je.
+  - apply Hstat, cmd_ls_files_je.
+  - apply Hstat, cmd_rev_parse_je.
+  - apply Hstat, cmd_write_tree_je.
+Qed.
+
+(* ================================================================== *)
+(** * 6. Steps and histories *)
+
+(* what the logic says about one run of a command, under ANY fault setting *)
+Lemma run_cmd_sound : forall (H : Prop) e c w fk r s',
+  (H -> JInv w /\ cmd_names_clean c) ->
+  run_cmd e c (mkMS w [] fk) = (r, s') ->
+  ms_w s' = apply_effects (ms_trace s') w /\
+  Forall (fun x => (H -> JG x) /\ (quiet_cmd c = true -> is_hlog x = false)) (ms_trace s') /\
+  (forall out, r = Ok out -> cmd_post e c w (ms_w s')).
+Proof.
+  intros H e c w fk r s' Hhyp Hrun.
+  destruct (hoare_sound Tr (JGq H (quiet_cmd c)) _ _ _ _ w [] fk r s'
+              (run_cmd_spec H e c w Hhyp) Logic.I eq_refl Hrun)
+    as (tr & Ht & Hw & Hs & _ & _ & _ & Hq).
+  cbn [app] in Ht. rewrite Ht. split; [exact Hw|]. split; [|exact Hq].
+  apply (steps_ok_forall Tr (JGq H (quiet_cmd c)) _ (fun w0 x Hg => Hg) tr w Hs).
+Qed.
+
+Lemma step_cmd_run : forall e c w w' o tr,
+  step (ACmd e c) w = (w', o, tr) ->
+  exists r s', run_cmd e c (mkMS w [] None) = (r, s') /\ w' = ms_w s' /\ o = outcome_of r /\ tr = ms_trace s'.
+Proof.
+  intros e c w w' o tr Hs. rewrite step_cmd_eq in Hs.
+  destruct (run_cmd e c (mkMS w [] None)) as [r s']. cbn [fst snd] in Hs.
+  apply triple_inv in Hs. destruct Hs as (Hw & Ho & Ht).
+  exists r, s'. split; [reflexivity|]. split; [symmetry; exact Hw|]. split; symmetry; assumption.
+Qed.
+
+Lemma Forall_JG_of : forall (H : Prop) (P : effect -> Prop) tr,
+  H -> Forall (fun x => (H -> JG x) /\ P x) tr -> Forall JG tr.
+Proof.
+  intros H P tr Hh Hall. apply (Forall_impl _ (P := fun x => (H -> JG x) /\ P x)); [|exact Hall].
+  intros x [Hx _]. apply Hx. exact Hh.
+Qed.
+
+(* 6.1 the invariant is kept *)
+Theorem JInv_cmd : forall e c w fk r s',
+  cmd_names_clean c -> JInv w -> run_cmd e c (mkMS w [] fk) = (r, s') -> JInv (ms_w s').
+Proof.
+  intros e c w fk r s' Hc Hi Hrun.
+  destruct (run_cmd_sound True e c w fk r s' (fun _ => conj Hi Hc) Hrun) as (Hw & Hall & _).
+  rewrite Hw. apply JInv_effects; [|exact Hi]. apply (Forall_JG_of True _ _ Logic.I Hall).
+Qed.
+
+Theorem JInv_step : forall a w, action_names_clean a -> JInv w -> JInv (step_w a w).
+Proof.
+  intros [e c|u] w Ha Hi.
+  - unfold step_w. destruct (step (ACmd e c) w) as [[w' o] tr] eqn:Es. cbn [fst].
+    destruct (step_cmd_run _ _ _ _ _ _ Es) as (r & s' & Hrun & -> & _ & _).
+    apply (JInv_cmd e c w None r s' Ha Hi Hrun).
+  - rewrite step_w_edit. apply JInv_edit. exact Hi.
+Qed.
+
+Theorem JInv_run : forall h w, Forall action_names_clean h -> JInv w -> JInv (run h w).
+Proof.
+  induction h as [|a h IH]; intros w Hh Hi.
+  - exact Hi.
+  - inversion Hh as [|a' h' Ha Hh']; subst. rewrite run_cons. apply IH; [exact Hh'|].
+    apply JInv_step; assumption.
+Qed.
+
+(* every history Goit itself produced, with newline-free branch-name
+   arguments, leaves a journal that reads back *)
+Corollary journal_reads_back : forall h, Forall action_names_clean h ->
+  exists rs, parse_reflog (hlog_bytes (run h w_empty)) = Some rs.
+Proof.
+  intros h Hh. destruct (JInv_run h w_empty Hh JInv_empty) as [[Hrs _] _]. exact Hrs.
+Qed.
+
+(* a command stopped by a write failure also leaves a readable journal *)
+Corollary JInv_fault : forall e c w k r s',
+  cmd_names_clean c -> JInv w -> run_cmd e c (mkMS w [] (Some k)) = (r, s') -> JInv (ms_w s').
+Proof. intros e c w k r s'. apply JInv_cmd. Qed.
+
+(* [reflog] succeeds in such a world as soon as the file exists *)
+Theorem reflog_total : forall w hl t fk, JournalOk w -> w_hlog w = Some hl ->
+  exists out, cmd_reflog (mkMS w t fk) = (Ok out, mkMS w t fk).
+Proof.
+  intros w hl t fk [[rs Hrs] _] Hhl. unfold hlog_bytes in Hrs. rewrite Hhl in Hrs.
+  unfold cmd_reflog. rewrite ev_bind_getw. cbn [ms_w]. rewrite Hhl, ev_bind_of_opt, Hrs, ev_bind_of_opt.
+  eexists. reflexivity.
+Qed.
+
+(* 6.2 what is appended *)
+Lemma w_hlog_quiet_effect : forall x w, is_hlog x = false -> w_hlog (apply_effect x w) = w_hlog w.
+Proof. intros x w Hx. destruct x; try discriminate Hx; autorewrite with wfields; reflexivity. Qed.
+
+Lemma w_hlog_quiet_effects : forall tr w, Forall (fun x => is_hlog x = false) tr ->
+  w_hlog (apply_effects tr w) = w_hlog w.
+Proof.
+  induction tr as [|x tr IH]; intros w Hall; [reflexivity|].
+  inversion Hall as [|x' tr' Hx Htr]; subst. rewrite apply_effects_cons, (IH _ Htr).
+  apply w_hlog_quiet_effect. exact Hx.
+Qed.
+
+(* every command other than commit / switch / reset / branch --rename leaves
+   logs/HEAD untouched, whatever its outcome *)
+Theorem quiet_cmd_untouched : forall e c w w' o tr,
+  quiet_cmd c = true -> step (ACmd e c) w = (w', o, tr) -> w_hlog w' = w_hlog w.
+Proof.
+  intros e c w w' o tr Hq Hs.
+  destruct (step_cmd_run _ _ _ _ _ _ Hs) as (r & s' & Hrun & -> & _ & _).
+  destruct (run_cmd_sound False e c w None r s' (fun f => match f with end) Hrun) as (Hw & Hall & _).
+  rewrite Hw. apply w_hlog_quiet_effects.
+  apply (Forall_impl _ (P := fun x => (False -> JG x) /\ (quiet_cmd c = true -> is_hlog x = false))); [|exact Hall].
+  intros x [_ Hx]. apply Hx. exact Hq.
+Qed.
+
+Theorem edit_untouched : forall u w, w_hlog (step_w (AEdit u) w) = w_hlog w.
+Proof. intros u w. rewrite step_w_edit. apply w_hlog_apply_edit. Qed.
+
+(* a successful command has appended exactly the lines of [cmd_post] *)
+Theorem appended_step : forall e c w w' out tr,
+  step (ACmd e c) w = (w', OOk out, tr) -> cmd_post e c w w'.
+Proof.
+  intros e c w w' out tr Hs.
+  destruct (step_cmd_run _ _ _ _ _ _ Hs) as (r & s' & Hrun & -> & Ho & _).
+  destruct (run_cmd_sound False e c w None r s' (fun f => match f with end) Hrun) as (_ & _ & Hq).
+  destruct r as [out'| |]; try discriminate Ho. apply (Hq out' eq_refl).
+Qed.
+
+(* the commit HEAD resolves to *)
+Definition head_id (w : world) : option bytes := am_get (w_refs w) (w_head w).
+
+(* in readable form, one theorem per journaling command *)
+Theorem commit_appends : forall e msg w w' out tr,
+  step (ACmd e (CCommit msg)) w = (w', OOk out, tr) ->
+  exists x cid, ctx_of w = Some x /\ head_id w' = Some cid /\ length cid = 20 /\
+    hlog_bytes w' = hlog_bytes w ++ log_rec e x (head_id w) (Some cid) RCommit (first_line msg).
+Proof.
+  intros e msg w w' out tr Hs. pose proof (appended_step _ _ _ _ _ _ Hs) as Hp. cbn [cmd_post] in Hp.
+  destruct Hp as (x & Hx & cid & Hlen & Hhead & _ & Hb). exists x, cid. auto.
+Qed.
+
+Theorem switch_appends : forall e args create w w' out tr,
+  step (ACmd e (CSwitch args create)) w = (w', OOk out, tr) ->
+  exists x id, ctx_of w = Some x /\ head_id w' = Some id /\ length id = 20 /\
+    hlog_bytes w' = hlog_bytes w ++
+      log_rec e x (Some id) (Some id) RCheckout
+        (str "moving from "%string ++ w_head w ++ str " to "%string ++ w_head w') /\
+    ((args = [w_head w'] /\ create = [] /\ am_get (w_refs w) (w_head w') = Some id) \/
+     (args = [] /\ create = w_head w' /\ is_nil create = false /\ head_id w = Some id)).
+Proof.
+  intros e args create w w' out tr Hs. pose proof (appended_step _ _ _ _ _ _ Hs) as Hp. cbn [cmd_post] in Hp.
+  destruct Hp as (x & Hx & id & Hlen & Hhead & Hb & Hsh). exists x, id. auto.
+Qed.
+
+Theorem reset_appends : forall e soft mixed hard args w w' out tr,
+  step (ACmd e (CReset soft mixed hard args)) w = (w', OOk out, tr) ->
+  exists x prev tid a, ctx_of w = Some x /\ args = [a] /\ reset_target w a = Some tid /\
+    head_id w = Some prev /\ head_id w' = Some tid /\ length tid = 20 /\
+    hlog_bytes w' = hlog_bytes w ++
+      log_rec e x (Some prev) (Some tid) RReset (str "moving to "%string ++ a).
+Proof.
+  intros e soft mixed hard args w w' out tr Hs.
+  pose proof (appended_step _ _ _ _ _ _ Hs) as Hp. cbn [cmd_post] in Hp.
+  destruct Hp as (x & Hx & prev & tid & a & Ha & Ht & Hprev & Hlen & Hhead & _ & Hb).
+  exists x, prev, tid, a. repeat split; assumption.
+Qed.
+
+Theorem rename_appends : forall e args lst rename delete w w' out tr,
+  is_nil rename = false ->
+  step (ACmd e (CBranch args lst rename delete)) w = (w', OOk out, tr) ->
+  exists x hid, ctx_of w = Some x /\ head_id w = Some hid /\ head_id w' = Some hid /\ length hid = 20 /\
+    w_head w' = rename /\
+    hlog_bytes w' = hlog_bytes w ++
+      log_rec e x (Some hid) None RBranch
+        (str "renamed refs/heads/"%string ++ w_head w ++ str " to refs/heads/"%string ++ rename) ++
+      log_rec e x None (Some hid) RBranch
+        (str "renamed refs/heads/"%string ++ w_head w ++ str " to refs/heads/"%string ++ rename).
+Proof.
+  intros e args lst rename delete w w' out tr Hn Hs.
+  pose proof (appended_step _ _ _ _ _ _ Hs) as Hp. cbn [cmd_post] in Hp.
+  destruct Hp as (x & Hx & Hp). destruct (Hp Hn) as (hid & Hprev & Hlen & Hh & Hhead & Hb).
+  exists x, hid. repeat split; assumption.
+Qed.
+
+(* ================================================================== *)
+(** * 7. The parsed journal is extended *)
+
+Definition rename_msg' (prev new : bytes) : bytes :=
+  str "renamed refs/heads/"%string ++ prev ++ str " to refs/heads/"%string ++ new.
+
+(* the records a successful command adds *)
+Definition journal_delta (c : cmd) (w w' : world) : list lrec :=
+  match c with
+  | CCommit msg => [rec_of (head_id w') RCommit (first_line msg)]
+  | CSwitch _ _ =>
+      [rec_of (head_id w') RCheckout (str "moving from "%string ++ w_head w ++ str " to "%string ++ w_head w')]
+  | CReset _ _ _ args => [rec_of (head_id w') RReset (str "moving to "%string ++ hd [] args)]
+  | CBranch _ _ rename _ =>
+      if is_nil rename then []
+      else [rec_of None RBranch (rename_msg' (w_head w) rename);
+            rec_of (head_id w') RBranch (rename_msg' (w_head w) rename)]
+  | _ => []
+  end.
+
+Definition journal_kind (c : cmd) : option rtype :=
+  match c with
+  | CCommit _ => Some RCommit
+  | CSwitch _ _ => Some RCheckout
+  | CReset _ _ _ _ => Some RReset
+  | CBranch _ _ rename _ => if is_nil rename then None else Some RBranch
+  | _ => None
+  end.
+
+Lemma journal_kind_quiet : forall c, journal_kind c = None <-> quiet_cmd c = true.
+Proof.
+  intro c. destruct c; cbn [journal_kind quiet_cmd]; try (split; [reflexivity | reflexivity]);
+    try (split; intro Hd; discriminate Hd).
+  destruct (is_nil rename); split; intro Hd; try reflexivity; discriminate Hd.
+Qed.
+
+Theorem reflog_extends : forall e c w w' out tr,
+  JInv w -> cmd_names_clean c -> step (ACmd e c) w = (w', OOk out, tr) ->
+  exists rs, parse_reflog (hlog_bytes w) = Some rs /\
+             parse_reflog (hlog_bytes w') = Some (rs ++ journal_delta c w w').
+Proof.
+  intros e c w w' out tr Hi Hc Hs.
+  destruct Hi as ([[rs Hrs] Hend] & Hn & Hcfg). exists rs. split; [exact Hrs|].
+  assert (Hquiet : quiet_cmd c = true -> journal_delta c w w' = [] ->
+                   parse_reflog (hlog_bytes w') = Some (rs ++ journal_delta c w w')).
+  { intros Hq Hd. rewrite Hd, app_nil_r. unfold hlog_bytes.
+    rewrite (quiet_cmd_untouched _ _ _ _ _ _ Hq Hs). exact Hrs. }
+  pose proof (appended_step _ _ _ _ _ _ Hs) as Hp.
+  destruct c; cbn [cmd_post] in Hp; try (apply Hquiet; reflexivity).
+  - (* commit *)
+    destruct Hp as (x & Hx & cid & Hlen & Hhead & _ & Hb).
+    pose proof (ctx_ident_clean w x Hcfg Hx) as Hid.
+    cbn [journal_delta]. unfold head_id. rewrite Hhead, Hb.
+    apply (journal_append _ rs _ _ Hrs Hend). apply log_rec_good;
+      [exact Hid | apply some_len; exact Hlen | apply first_line_no_nl].
+  - (* branch *)
+    destruct Hp as (x & Hx & Hp). destruct (is_nil rename) eqn:Enil.
+    + apply Hquiet; [exact Enil | cbn [journal_delta]; rewrite Enil; reflexivity].
+    + cbn [journal_delta]. rewrite Enil. destruct (Hp Enil) as (hid & Hprev & Hlen & Hh & Hhead & Hb).
+      pose proof (ctx_ident_clean w x Hcfg Hx) as Hid.
+      assert (Hmsg : ~ In c_nl (rename_msg' (w_head w) rename))
+        by (apply rename_msg_clean; [exact (proj2 Hn) | exact (proj2 Hc)]).
+      unfold head_id. rewrite Hhead, Hb. unfold rename_lines.
+      apply (journal_append2 _ rs _ _ _ _ Hrs Hend); apply log_rec_good;
+        try exact Hid; try exact Hmsg;
+        [intros h0 Hh0; discriminate Hh0 | apply some_len; exact Hlen].
+  - (* switch *)
+    destruct Hp as (x & Hx & id & Hlen & Hhead & Hb & Hsh).
+    pose proof (ctx_ident_clean w x Hcfg Hx) as Hid.
+    cbn [journal_delta]. unfold head_id. rewrite Hhead, Hb.
+    apply (journal_append _ rs _ _ Hrs Hend). apply log_rec_good;
+      [exact Hid | apply some_len; exact Hlen |].
+    apply switch_msg_clean; [exact (proj2 Hn)|].
+    destruct Hsh as [(_ & _ & Hg) | (_ & Hcr & _ & _)].
+    * apply (NamesClean_get w _ _ Hn Hg).
+    * cbn [cmd_names_clean] in Hc. rewrite <- Hcr. exact Hc.
+  - (* reset *)
+    destruct Hp as (x & Hx & prev & tid & a & -> & Ht & Hprev & Hlen & Hhead & _ & Hb).
+    pose proof (ctx_ident_clean w x Hcfg Hx) as Hid.
+    cbn [journal_delta hd]. unfold head_id. rewrite Hhead, Hb.
+    apply (journal_append _ rs _ _ Hrs Hend). apply log_rec_good;
+      [exact Hid | apply some_len; exact Hlen |].
+    apply jf_lit_app_clean; [reflexivity|].
+    destruct (reset_target_elim w a tid Ht) as (n & _ & _ & _ & Ha & _).
+    apply (reset_arg_no_nl a n Ha).
+Qed.
+
+(* earlier entries keep content and order; their positions shift by the
+   number of records added *)
+Corollary reflog_extends_positions : forall e c w w' out tr,
+  JInv w -> cmd_names_clean c -> step (ACmd e c) w = (w', OOk out, tr) ->
+  exists rs rs', parse_reflog (hlog_bytes w) = Some rs /\
+    parse_reflog (hlog_bytes w') = Some (rs ++ rs') /\
+    (forall i, (i < length rs)%nat -> nth_error (rs ++ rs') i = nth_error rs i) /\
+    (forall n, get_record (rs ++ rs') (length rs' + n) = get_record rs n) /\
+    length rs' = match journal_kind c with
+                 | None => 0%nat
+                 | Some RBranch => 2%nat
+                 | Some _ => 1%nat
+                 end.
+Proof.
+  intros e c w w' out tr Hi Hc Hs.
+  destruct (reflog_extends e c w w' out tr Hi Hc Hs) as (rs & Hrs & Hrs').
+  exists rs, (journal_delta c w w'). split; [exact Hrs|]. split; [exact Hrs'|].
+  split; [intros i Hlt; apply nth_error_app1; exact Hlt|].
+  split; [intro n; apply get_record_app_many|].
+  destruct c; cbn [journal_delta journal_kind]; try reflexivity.
+  destruct (is_nil rename); reflexivity.
+Qed.
+
+(* the newest entry: the commit HEAD now resolves to, with the action's kind;
+   [reflog] prints it at position 0 and [reset HEAD@{0}] resolves to it *)
+Theorem reflog_head_entry : forall e c w w' out tr ty,
+  JInv w -> cmd_names_clean c -> step (ACmd e c) w = (w', OOk out, tr) ->
+  journal_kind c = Some ty ->
+  exists rs' r, parse_reflog (hlog_bytes w') = Some rs' /\
+    get_record rs' 0 = Some r /\
+    r_type r = ty /\ r_id r = id_back (head_id w') /\
+    nth_error (show_reflog rs') 0 = Some (short_id (r_id r), 0%nat, ty, r_msg r).
+Proof.
+  intros e c w w' out tr ty Hi Hc Hs Hk.
+  destruct (reflog_extends e c w w' out tr Hi Hc Hs) as (rs & _ & Hrs').
+  assert (Hlast : exists pre msg, journal_delta c w w' = pre ++ [rec_of (head_id w') ty msg]).
+  { destruct c; cbn [journal_kind] in Hk; try discriminate Hk; cbn [journal_delta].
+    - injection Hk as <-. exists [], (first_line msg). reflexivity.
+    - destruct (is_nil rename); [discriminate Hk|]. injection Hk as <-.
+      exists [rec_of None RBranch (rename_msg' (w_head w) rename)], (rename_msg' (w_head w) rename). reflexivity.
+    - injection Hk as <-. eexists [], _. reflexivity.
+    - injection Hk as <-. eexists [], _. reflexivity. }
+  destruct Hlast as (pre & msg & Hd). rewrite Hd, app_assoc in Hrs'.
+  exists ((rs ++ pre) ++ [rec_of (head_id w') ty msg]), (rec_of (head_id w') ty msg).
+  split; [exact Hrs'|].
+  pose proof (proj1 (get_record_app (rs ++ pre) (rec_of (head_id w') ty msg) 0)) as Hg.
+  split; [exact Hg|]. split; [reflexivity|]. split; [reflexivity|].
+  apply (show_reflog_get_record _ _ _ Hg).
+Qed.
+
+(* the id reads back unchanged unless it is the all-zero id *)
+Lemma id_back_head : forall w, head_id w <> Some (repeat x00 20) -> id_back (head_id w) = head_id w.
+Proof. intros w Hz. apply id_back_id. exact Hz. Qed.
+
+(* the message reads back unchanged unless it ends in '\r' *)
+Lemma rec_of_msg : forall to ty msg, (msg = [] \/ last msg x00 <> c_cr) -> r_msg (rec_of to ty msg) = msg.
+Proof. intros to ty msg Hm. cbn [rec_of r_msg]. apply drop_cr_id. exact Hm. Qed.
+
+(* whatever the outcome (refused half-way, stopped by a write failure): the
+   parsed journal only grows at its end *)
+Lemma journal_effects_extend : forall tr w rs,
+  Forall JG tr -> parse_reflog (hlog_bytes w) = Some rs ->
+  (hlog_bytes w = [] \/ last (hlog_bytes w) x00 = c_nl) ->
+  exists rs', parse_reflog (hlog_bytes (apply_effects tr w)) = Some (rs ++ rs').
+Proof.
+  induction tr as [|x tr IH]; intros w rs Hall Hrs Hend.
+  - exists []. rewrite app_nil_r. exact Hrs.
+  - inversion Hall as [|x' tr' Hx Htr]; subst. rewrite apply_effects_cons.
+    destruct (is_hlog x) eqn:Ex.
+    + destruct x; try discriminate Ex. cbn [JG] in Hx. destruct Hx as [r Hr].
+      destruct (journal_append _ rs line r Hrs Hend Hr) as [Hp He].
+      destruct (IH (apply_effect (EAppendHlog line) w) (rs ++ [r]) Htr) as [rs' Hrs'].
+      * rewrite hlog_bytes_effect. exact Hp.
+      * rewrite hlog_bytes_effect. right. exact He.
+      * exists (r :: rs'). rewrite Hrs', <- app_assoc. reflexivity.
+    + assert (Hb : hlog_bytes (apply_effect x w) = hlog_bytes w).
+      { rewrite hlog_bytes_effect. destruct x; try discriminate Ex; apply app_nil_r. }
+      apply IH; [exact Htr | rewrite Hb; exact Hrs | rewrite Hb; exact Hend].
+Qed.
+
+Theorem journal_extends_cmd : forall e c w fk r s',
+  cmd_names_clean c -> JInv w -> run_cmd e c (mkMS w [] fk) = (r, s') ->
+  exists rs rs', parse_reflog (hlog_bytes w) = Some rs /\
+                 parse_reflog (hlog_bytes (ms_w s')) = Some (rs ++ rs').
+Proof.
+  intros e c w fk r s' Hc Hi Hrun.
+  destruct (run_cmd_sound True e c w fk r s' (fun _ => conj Hi Hc) Hrun) as (Hw & Hall & _).
+  destruct Hi as ([[rs Hrs] Hend] & _).
+  destruct (journal_effects_extend (ms_trace s') w rs (Forall_JG_of True _ _ Logic.I Hall) Hrs Hend) as [rs' Hrs'].
+  exists rs, rs'. rewrite Hw. auto.
+Qed.
+
+Theorem journal_extends_step : forall a w, action_names_clean a -> JInv w ->
+  exists rs rs', parse_reflog (hlog_bytes w) = Some rs /\
+                 parse_reflog (hlog_bytes (step_w a w)) = Some (rs ++ rs').
+Proof.
+  intros [e c|u] w Ha Hi.
+  - unfold step_w. destruct (step (ACmd e c) w) as [[w' o] tr] eqn:Es. cbn [fst].
+    destruct (step_cmd_run _ _ _ _ _ _ Es) as (r & s' & Hrun & -> & _ & _).
+    apply (journal_extends_cmd e c w None r s' Ha Hi Hrun).
+  - destruct Hi as ([[rs Hrs] _] & _). exists rs, []. rewrite step_w_edit, app_nil_r.
+    unfold hlog_bytes. rewrite w_hlog_apply_edit. auto.
+Qed.
+
+Theorem journal_extends_run : forall h w, Forall action_names_clean h -> JInv w ->
+  exists rs rs', parse_reflog (hlog_bytes w) = Some rs /\
+                 parse_reflog (hlog_bytes (run h w)) = Some (rs ++ rs').
+Proof.
+  induction h as [|a h IH]; intros w Hh Hi.
+  - destruct Hi as ([[rs Hrs] _] & _). exists rs, []. rewrite app_nil_r. auto.
+  - inversion Hh as [|a' h' Ha Hh']; subst. rewrite run_cons.
+    destruct (journal_extends_step a w Ha Hi) as (rs & rs1 & Hrs & Hrs1).
+    destruct (IH _ Hh' (JInv_step a w Ha Hi)) as (rs1' & rs2 & Hrs1' & Hrs2).
+    rewrite Hrs1 in Hrs1'. injection Hrs1' as <-.
+    exists rs, (rs1 ++ rs2). rewrite Hrs2, app_assoc. auto.
 Qed.
